@@ -416,6 +416,32 @@ MANIFEST_TEXT["C20"] = {
     "design_ref": "DESIGN.md section 3 / C20",
 }
 
+PLAN["C19"] = {
+    "pkg": "c19",
+    "tests": [
+        {"name": "TestRedactedURNsInvisible", "quick": (4000, 16), "thorough": (240000, 16)},
+        {"name": "TestURNQueriesRejected", "quick": (20000, 2), "thorough": (400000, 4)},
+    ],
+    "budget": {"quick": 600, "thorough": 5400},
+    "rule": SCENARIO_RULE + "Each scenario is executed as twins that are identical except for the path part of every URN in the trigger "
+            "contact, the trigger/resume messages and the parent-run contact (same scheme, same country and long common prefix, so channel "
+            "routing is identical), under redaction policy urns. Oracle after every sprint: a complete recursive walk of "
+            "Session.CurrentContext() (every property, array item and default, rendered with Render, Format and JSON; depth <= 7) and 3-8 "
+            "templates drawn from 46 URN-centred expressions (contact.urn(s), urns.*, input.urn, parent/child contacts, format_urn, "
+            "urn_parts, json(...), text functions over URNs) are identical for the twins; expression-derived event content (message text, "
+            "quick replies, result values, names, field values) is identical; nameless contacts format as their id. Control: under policy "
+            "none the same walk must differ for twins with different URNs (proves the walk reaches URNs). Second test: every condition on "
+            "urn, a scheme or urns.<scheme> with a non-empty value is rejected by ParseQuery under the policy and accepted without it. "
+            "Non-trivial = the twins differ and the control walk shows a difference; distinct by (assets, trigger, steps, templates).",
+    "assumptions": COMMON_ASSUMPTIONS + ["flows contain no add_contact_urn with a literal path (whether a literal URN is new depends on the contact's URNs by design, not through expressions)"],
+}
+MANIFEST_TEXT["C19"] = {
+    "technique": "property-based testing (rapid, stateful): non-interference by differential execution of twin sessions differing only in secret URN parts, full context walk plus generated templates, with a no-redaction control run",
+    "level_text": "Exploration: no context path, template or expression-derived event content distinguished twins under the policy, while the control run did distinguish them.",
+    "level_note": "Context walk bounded to depth 7 / 6000 values / first 5 array items; twin URNs from a fixed pool of 8 pairs.",
+    "design_ref": "DESIGN.md section 3 / C19",
+}
+
 # every property without a registered check is listed here with the reason (kept current as checks are added)
 NOT_APPLICABLE = [{"property_id": pid, "reason": "check not built yet in this round (planned in DESIGN.md); nothing is claimed for it"}
                   for pid in ALL_IDS if pid not in PLAN]
